@@ -24,7 +24,10 @@ CLAIMED = {
          "(fix_offset, erode_sub, dilate_add) are re-translated from the C++ on every run: erosion = lattice definition at every "
          "pixel, saturation laws for every width, scatter-dilation = max of contributions; the 2-D boolean fast path "
          "(second executable model, whose loops are RE-TRANSLATED from fast_binary_dilate_erode_2d and proved to be the model's "
-         "updates) is proved equal to the generic path for every image and element; the model is run (extracted OCaml) "
+         "updates) is proved equal to the generic path for every image and element; the border-region offsets table of "
+         "_filters.cpp (per-axis arithmetic RE-TRANSLATED from init_filter_offsets / init_filter_iterator / iterate_both) is modelled in "
+         "N dimensions and proved to present, at every pixel, the row computed at that pixel, whose entries are the border-mapped "
+         "window positions; the model is run (extracted OCaml) "
          "against the fresh build of /repo on generated inputs over dtypes x layouts x element classes, and the extracted Coq "
          "specification judges the implementation's outputs",
          "Rocq proof + translator + differential correspondence"),
@@ -130,7 +133,7 @@ CLAIMED = {
          "pointer = base + <position, strides> for arbitrary strides and visits positions in C order; at_flat addresses the element "
          "with the given C-order index; flat<->position maps are mutually inverse. All kernel theorems (C01-C07, C13-C19) are stated "
          "on logical arrays, hence layout- and heap-independent by construction. The implementation is swept (support): every "
-         "registry function x every array argument x 7 layouts x 3 heap perturbations in isolated workers, results compared and "
+         "registry function x every array argument x 9 layouts and the non-native byte order x 3 heap perturbations in isolated workers, results compared and "
          "arguments checked for purity",
          "Rocq proof (array layer) + metamorphic API sweep in isolated processes"),
  "C09": ("proof", "Coq theorems: the shared helper _get_output, RE-TRANSLATED from internal.py on every run (ordered rejection tests, "
@@ -141,7 +144,8 @@ CLAIMED = {
          "Rocq proof + Python-ast translator + behavioural check of every out= wrapper"),
  "C10": ("proof", "partial: the index arithmetic is proved, the runtime is observed. Coq theorems: the re-translated fix_offset returns an "
          "index inside [0,len) or the explicit flag in every mode; every position a filter kernel dereferences lies inside the array "
-         "(any dimension); the convolve1d raw-pointer fast path reads in bounds and writes every column under the wrapper's guard; "
+         "(any dimension); every entry of the offsets table of _filters.cpp (arithmetic re-translated on every run) is the flag or leads "
+         "to an element inside the array, and the table pointer stays on a row of the table; the convolve1d raw-pointer fast path reads in bounds and writes every column under the wrapper's guard; "
          "the unchecked flat neighbour indices of cwatershed (margin lower bounds) are in bounds; at_flat addresses in-range "
          "positions. Runtime half (support): every registry function on generated valid inputs, 1-4 D, sizes to 40, neighbourhoods "
          "larger than the image, random layouts, in isolated workers on an AddressSanitizer build of the current tree",
